@@ -10,19 +10,28 @@ A5 == S("t_add", <<L("e", 1), L("c", 5)>>)
 B  == S("t_dbl", <<L("e", 1)>>)
 C  == S("t_add", <<L("e", 2), L("c", 3)>>)
 W  == S("t_oneway", <<L("e", 3)>>)
+W2 == S("t_oneway2", <<L("e", 3)>>)                \* one-way, gamut without the inv flag
 Z  == S("t_failodd", <<>>)
 M(n) == S(n, <<>>)
 
-Res == [n \in {"m:s", "m:p", "m:d", "m:i", "m:n", "m:w", "m:o"} |->
+Res == [n \in {"m:s", "m:p", "m:d", "m:i", "m:n", "m:w", "m:o", "m:ol", "m:xl", "m:n3", "m:n4"} |->
           CASE n = "m:s" -> <<A5>>
             [] n = "m:p" -> <<A, B>>
             [] n = "m:d" -> <<A, Mod(B, FALSE, TRUE, FALSE)>>                     \* ends in a directional step
             [] n = "m:i" -> <<Mod(B, TRUE, FALSE, FALSE), Mod(C, FALSE, FALSE, TRUE), A>>
             [] n = "m:n" -> <<Mod(M("m:p"), TRUE, FALSE, FALSE), C>>              \* nested, inverted inside
             [] n = "m:o" -> <<Mod(A5, FALSE, FALSE, TRUE)>>                       \* a one-step pipeline: a single directional step
+            \* the same kind of body written without a separator (LoneSet): `t_add e=1 c=5 omit_fwd`, `m:p omit_inv`
+            [] n = "m:ol" -> <<Mod(A5, FALSE, TRUE, FALSE)>>
+            [] n = "m:xl" -> <<Mod(M("m:p"), FALSE, FALSE, TRUE)>>
+            \* four levels of nesting (m:n4 > m:n3 > m:n > m:p) with modifiers at every level
+            [] n = "m:n3" -> <<Mod(M("m:n"), TRUE, FALSE, TRUE), B>>
+            [] n = "m:n4" -> <<C, Mod(M("m:n3"), TRUE, TRUE, FALSE), Mod(A5, FALSE, FALSE, TRUE)>>
             [] n = "m:w" -> <<W, A>>]                                             \* contains a one-way step
+LoneSet == {"m:ol", "m:xl"}
 
-Base == {A, B, C, W, Z} \cup {M(n) : n \in DOMAIN Res}
+\* (the macros of the corner instance, ProgsCorner below, are not part of the general base)
+Base == {A, B, C, W, Z} \cup {M(n) : n \in {"m:s", "m:p", "m:d", "m:i", "m:n", "m:w", "m:o"}}
 Mods3 == {<<i, f, o>> : i \in BOOLEAN, f \in BOOLEAN, o \in BOOLEAN}
 Mods  == {m \in Mods3 : ~(m[2] /\ m[3])}           \* quick: not both omissions at once
 Steps1   == {Mod(b, m[1], m[2], m[3]) : b \in Base, m \in Mods}
@@ -43,10 +52,24 @@ Progs3s == [1..3 -> Small]
 LongSteps == {A, Mod(B, TRUE, FALSE, FALSE), Mod(C, FALSE, TRUE, FALSE), M("m:i"), Mod(M("m:n"), TRUE, FALSE, FALSE), Mod(Z, FALSE, FALSE, TRUE)}
 ProgsLong == [1..5 -> LongSteps]
 
+\* corners (every layout, and `inv` given twice): the one-way operator whose gamut lacks the inv flag, macro
+\* bodies of one directional step written without a separator, four levels of nesting, each with every
+\* modifier combination, alone (where that is decided) and next to / between partner steps; both
+\* omissions on one step; inverted steps for the "twice" layout
+Partner   == {A, Mod(B, TRUE, FALSE, FALSE), Mod(C, FALSE, TRUE, FALSE), Mod(M("m:i"), TRUE, FALSE, FALSE)}
+NewSteps  == {Mod(b, m[1], m[2], m[3]) : b \in {W2, M("m:ol"), M("m:xl"), M("m:n4")}, m \in Mods}
+BothSteps == {Mod(b, i, TRUE, TRUE) : b \in {A, W, M("m:i"), M("m:o"), M("m:ol")}, i \in BOOLEAN}
+InvSteps  == {Mod(b, TRUE, m[2], m[3]) : b \in {A, B, M("m:i"), M("m:p")}, m \in Mods}
+Around(X) == {<<x>> : x \in X} \cup {<<x, p>> : x \in X, p \in Partner} \cup {<<p, x>> : x \in X, p \in Partner}
+ProgsCorner == {d \in Around(NewSteps) \cup {<<p, x, q>> : p \in Partner, x \in NewSteps, q \in Partner}
+                      \cup Around(BothSteps) \cup {<<x>> : x \in InvSteps} \cup [1..2 -> InvSteps] : ~Undecided(d)}
+
 \* tuple 1 passes t_failodd, tuple 2 (odd first element) fails it
 D2 == << <<2 * Unit, 12 * Unit, 13 * Unit, 14 * Unit>>, <<21 * Unit, 22 * Unit, 23 * Unit, 24 * Unit>> >>
 NoGlobals == <<>>
 StylesAll == {"suffix", "prefix", "eqtrue", "mid", "sugar"}
+\* the layouts are the subject of the general instance; the corners are written in three of them
+StylesCorner == {"suffix", "sugar", "twice"}
 Styles2 == {"prefix", "sugar"}
 Styles1 == {"suffix"}
 =============================================================================
